@@ -83,15 +83,13 @@ theorem obsX_eq (s : State) (g : G) (l : Label) :
     * an operation is started only when the previous `nng_aio_start`-style call has returned (the
       monitor attributes a return to the newest operation);
     * `nng_aio_result` is not called during or after `nng_aio_free`;
-    * when `nng_aio_free` sees the task idle every start call has returned;
-    * no callback begins between `nng_aio_stop`'s last look at the task and its return. -/
+    * when `nng_aio_free` sees the task idle every start call has returned. -/
 def okL (s : State) (_g : G) : Label → Bool
   | .complete rv => rv != ETIMEDOUT
   | .subCall k _ =>
     s.subRets.isEmpty && (match k with | .direct rv => rv != ETIMEDOUT | _ => true)
   | .peek => !s.freed && !(s.stopPc != 0 && s.stopFree)
   | .stopWait => !s.stopFree || s.subRets.isEmpty
-  | .cbRead => s.stopPc != 5
   | _ => true
 
 /-- the environment keeps to `okL` along the execution (executable form) -/
